@@ -122,8 +122,10 @@ Definition bytestr (c : cbs) : option (list N) :=
   end.
 
 (* detach: [unique] is the value of Rc::strong_count(&self.data) == 1 *)
+(* a uniquely owned value is kept as it is only when it starts at bit 0; a slice with a non-zero start is always copied
+   (rebased to bit 0), so that the representation of the result does not depend on who else holds the buffer *)
 Definition detach (unique : bool) (c : cbs) : cbs :=
-  if unique then c
+  if unique && (cstart c =? 0) then c
   else if clen c =? 0 then mkcbs 0 0 []
   else mkcbs 0 (clen c)
              (map (fun '(v, n) => N.land (N.shiftl v (N.of_nat (8 - n))) 255) (iter8 c)).
